@@ -33,22 +33,32 @@ Definition dec_str (d : dec) : text :=
   (if dsign d then [45] else []) ++ fst parts ++ snd parts ++ ex.
 
 (* Decimal(s) for s = [-+]? digits? (. digits?)? ([eE] [-+]? digits)?  with at least one digit *)
+Definition split_sign (s : text) : bool * text :=
+  match s with
+  | c :: r => if c =? 45 then (true, r) else if c =? 43 then (false, r) else (false, s)
+  | [] => (false, s)
+  end.
+
+Definition split_frac (s : text) : text * text :=
+  match s with
+  | c :: r => if c =? 46 then span_digits r else ([], s)
+  | [] => ([], s)
+  end.
+
+Definition parse_exp (s : text) : option Z :=
+  match s with
+  | [] => Some 0
+  | c :: r => if (c =? 69) || (c =? 101) then signed_int_of_text r else None
+  end.
+
 Definition dec_parse (s : text) : option dec :=
-  let '(sg, s1) := match s with
-                   | c :: r => if c =? 45 then (true, r) else if c =? 43 then (false, r) else (false, s)
-                   | [] => (false, s)
-                   end in
-  let '(ip, s2) := span_digits s1 in
-  let '(fp, s3) := match s2 with
-                   | c :: r => if c =? 46 then span_digits r else ([], s2)
-                   | [] => ([], s2)
-                   end in
-  if nonempty (ip ++ fp) then
-    obind (match s3 with
-           | [] => Some 0
-           | c :: r => if (c =? 69) || (c =? 101) then signed_int_of_text r else None
-           end) (fun e =>
-      Some {| dsign := sg; dcoef := Z.of_int (Pos (uint_of_digits (ip ++ fp))); dexp := e - zlength fp |})
+  let p1 := split_sign s in
+  let p2 := span_digits (snd p1) in
+  let p3 := split_frac (snd p2) in
+  if nonempty (fst p2 ++ fst p3) then
+    obind (parse_exp (snd p3)) (fun e =>
+      Some {| dsign := fst p1; dcoef := Z.of_int (Pos (uint_of_digits (fst p2 ++ fst p3)));
+              dexp := e - zlength (fst p3) |})
   else None.
 
 (* ---------- bool ---------- *)
